@@ -416,6 +416,38 @@ func Lock(p interface{}) {
 	l.Lock()
 }
 
+// UnlockIsPoint makes every Unlock a scheduling point (the thread parks while still holding the
+// lock).  With blocking Lock only, nobody can observe a held lock except by not being enabled, so
+// the point adds no behaviour and is left out; code that uses TryLock CAN observe it, and the
+// rewriter switches this on when the instrumented files contain a TryLock.
+var UnlockIsPoint bool
+
+// TryLock is a scheduling point that is always enabled; it then takes the lock iff it is free.
+func TryLock(p interface{}) bool {
+	l := locker(p)
+	t := cur()
+	if t == nil {
+		return l.(interface{ TryLock() bool }).TryLock()
+	}
+	if t.aborting {
+		return false
+	}
+	if t.id != -1 {
+		t.park(&op{kind: opYield})
+	}
+	t.s.mu.Lock()
+	_, held := t.s.locks[l]
+	if !held {
+		t.s.locks[l] = t.id + 2
+	}
+	t.s.mu.Unlock()
+	if held {
+		return false
+	}
+	l.Lock()
+	return true
+}
+
 func Unlock(p interface{}) {
 	l := locker(p)
 	t := cur()
@@ -425,6 +457,12 @@ func Unlock(p interface{}) {
 	}
 	if t.aborting {
 		return
+	}
+	if UnlockIsPoint && t.id != -1 {
+		t.park(&op{kind: opYield})
+		if t.aborting {
+			return
+		}
 	}
 	t.s.mu.Lock()
 	delete(t.s.locks, l)
